@@ -54,14 +54,15 @@ fn module_of(uri: &str) -> String {
 /// The CAs whose chain touches module `broken`: CAs published there, CAs
 /// below a trust anchor certificate served from there, and descendants.
 fn affected(world: &World, parents: &BTreeMap<String, String>, broken: &str) -> BTreeSet<String> {
+    let broken: Vec<&str> = broken.split(',').collect();
     let mut res = BTreeSet::new();
     for ca in &world.cas {
         let mut cur = Some(ca.name.clone());
         let mut hit = false;
         while let Some(name) = cur {
             let spec = world.ca(&name).expect("CA");
-            if module_of(&spec.repo) == broken { hit = true }
-            if !parents.contains_key(&name) && module_of(&spec.cert_uri) == broken { hit = true }
+            if broken.contains(&module_of(&spec.repo).as_str()) { hit = true }
+            if !parents.contains_key(&name) && broken.contains(&module_of(&spec.cert_uri).as_str()) { hit = true }
             cur = parents.get(&name).cloned();
         }
         if hit { res.insert(ca.name.clone()); }
@@ -199,7 +200,7 @@ fn run_input(ctx: &mut Ctx, player: &mut Player, input: &Value) {
 
 fn generate(ctx: &mut Ctx) -> Vec<Value> {
     let mut cases = Vec::new();
-    let n = ctx.budget(32, 480);
+    let n = ctx.budget(22, 420);
     let mut i = 0;
     let mut attempts = 0;
     while i < n && attempts < 20 * n {
@@ -242,8 +243,13 @@ fn generate(ctx: &mut Ctx) -> Vec<Value> {
         let order = Order::Seed(rng.next());
         let mut tree = base_tree.clone();
         let (v, now) = if two_runs {
-            add_version(&mut base_tree, 600);
-            (add_version(&mut tree, 600), T0 + 900)
+            // The newer version carries new payload, so that a repository
+            // that is wrongly not fetched again shows.
+            let vb = add_version(&mut base_tree, 600);
+            bump_payload(&mut base_tree, vb);
+            let v = add_version(&mut tree, 600);
+            bump_payload(&mut tree, v);
+            (v, T0 + 900)
         } else { (0, T0) };
         let in_module: Vec<String> = tree.nodes.iter().filter(|n| n.module == broken).map(|n| n.name.clone()).collect();
         let mut faults = Vec::new();
@@ -314,6 +320,89 @@ fn generate(ctx: &mut Ctx) -> Vec<Value> {
             "scenario": to_json(&scn), "base": to_json(&base),
         }));
         i += 1;
+    }
+    cases.extend(same_host(ctx));
+    cases
+}
+
+/// Sibling repositories on one host. Shapes: two children of a trust anchor
+/// in the two modules of host h1 (either way round), two trust anchors in
+/// them, the healthy one reached through another host (grandchild); the
+/// broken module is the one visited first or second (single-threaded the
+/// order is: TALs by name, children by certificate file name). Failure
+/// modes: module not served (exit 5), whole host not served (exit 10), exit
+/// codes without transfer, partial transfers. Empty cache, and warm cache
+/// where every repository publishes a newer version with new payload in the
+/// run in which the fault appears. 1 and 3 validation threads.
+fn same_host(ctx: &mut Ctx) -> Vec<Value> {
+    let (a, b, c) = ("h1.test/repo", "h1.test/alt", "h2.test/repo");
+    let shapes: Vec<(&str, Tree, String)> = vec![
+        ("siblings first", shaped_tree(&[("t0", None, vec![], c, 0), ("t0c0", Some("t0"), vec![0], a, 0), ("t0c1", Some("t0"), vec![1], b, 0)]), a.into()),
+        ("siblings second", shaped_tree(&[("t0", None, vec![], c, 0), ("t0c0", Some("t0"), vec![0], a, 0), ("t0c1", Some("t0"), vec![1], b, 0)]), b.into()),
+        ("siblings swapped first", shaped_tree(&[("t0", None, vec![], c, 0), ("t0c0", Some("t0"), vec![0], b, 0), ("t0c1", Some("t0"), vec![1], a, 0)]), b.into()),
+        ("siblings swapped second", shaped_tree(&[("t0", None, vec![], c, 0), ("t0c0", Some("t0"), vec![0], b, 0), ("t0c1", Some("t0"), vec![1], a, 0)]), a.into()),
+        ("two tals first", shaped_tree(&[("t0", None, vec![], a, 0), ("t1", None, vec![], b, 1), ("t1c0", Some("t1"), vec![0], b, 1)]), a.into()),
+        ("two tals second", shaped_tree(&[("t0", None, vec![], a, 0), ("t0c0", Some("t0"), vec![0], a, 0), ("t1", None, vec![], b, 1)]), b.into()),
+        ("grandchild", shaped_tree(&[("t0", None, vec![], c, 0), ("t0c0", Some("t0"), vec![0], a, 0), ("t0c1", Some("t0"), vec![1], c, 0), ("t0c1c0", Some("t0c1"), vec![1, 0], b, 0)]), a.into()),
+        ("same module twice", shaped_tree(&[("t0", None, vec![], c, 0), ("t0c0", Some("t0"), vec![0], a, 0), ("t0c1", Some("t0"), vec![1], c, 0), ("t0c1c0", Some("t0c1"), vec![1, 0], a, 0), ("t0c2", Some("t0"), vec![2], b, 0)]), a.into()),
+        ("host down", shaped_tree(&[("t0", None, vec![], c, 0), ("t0c0", Some("t0"), vec![0], a, 0), ("t0c1", Some("t0"), vec![1], b, 0), ("t0c2", Some("t0"), vec![2], c, 0)]), format!("{a},{b}")),
+    ];
+    let mut modes: Vec<(String, Option<RsyncMode>)> = vec![("unserved".into(), None)];
+    for code in [1, 5, 10, 12, 23, 30, 35] {
+        modes.push((format!("exit {code}"), Some(RsyncMode::Fail { code })));
+    }
+    for files in [0, 2, 5] {
+        modes.push((format!("partial {files}"), Some(RsyncMode::Partial { files, code: 23 })));
+    }
+    let thorough = !ctx.quick();
+    let mut cases = Vec::new();
+    let mut k = ctx.seed as usize;
+    for (shape, base_tree, broken) in &shapes {
+        for warm in [false, true] {
+            for threads in [1usize, 3] {
+                for (m, (mode_name, mode)) in modes.iter().enumerate() {
+                    // Quick tier: one failure mode per (shape, cache, threads),
+                    // rotating; a whole host can only be "unserved".
+                    let host_down = broken.contains(',');
+                    if host_down && mode.is_some() { continue }
+                    if !host_down && !thorough && m != k % modes.len() { continue }
+                    let mut base_tree = base_tree.clone();
+                    let (v, now) = if warm {
+                        let v = add_version(&mut base_tree, 600);
+                        bump_payload(&mut base_tree, v);
+                        (v, T0 + 900)
+                    } else { (0, T0) };
+                    let broken_list: Vec<&str> = broken.split(',').collect();
+                    let mut serve = base_tree.serve(v);
+                    match mode {
+                        None => {
+                            let gone: Vec<String> = base_tree.nodes.iter()
+                                .filter(|n| broken_list.contains(&n.module.as_str())).map(|n| n.name.clone()).collect();
+                            serve.points.retain(|(name, _)| !gone.contains(name));
+                            serve.tas.retain(|ta| !broken_list.contains(&module_of(&ta.uri).as_str()));
+                        }
+                        Some(mode) => serve.rsync.push(RsyncCtl { module: broken.clone(), mode: mode.clone() }),
+                    }
+                    let opts = EngineOpts { threads, enable_aspa: true, ..Default::default() };
+                    let mut runs = Vec::new();
+                    let mut base_runs = Vec::new();
+                    if warm {
+                        runs.push(run_spec(T0, base_tree.serve(0), Order::Sorted));
+                        base_runs.push(run_spec(T0, base_tree.serve(0), Order::Sorted));
+                    }
+                    runs.push(run_spec(now, serve, Order::Sorted));
+                    base_runs.push(run_spec(now, base_tree.serve(v), Order::Sorted));
+                    let scn = Scenario { world: base_tree.world.clone(), opts: opts.clone(), runs };
+                    let base = Scenario { world: base_tree.world.clone(), opts, runs: base_runs };
+                    cases.push(json!({
+                        "kind": format!("same-host {shape}{}", if warm { " warm" } else { "" }),
+                        "broken": broken, "faults": [format!("{mode_name} {broken} threads={threads}")],
+                        "scenario": to_json(&scn), "base": to_json(&base),
+                    }));
+                }
+                k += 1;
+            }
+        }
     }
     cases
 }
